@@ -44,6 +44,35 @@ theorem exchange_forwarded (env : Env) (h : Header) (st : Nat) (oh : Header)
     rw [hr]
     simp [stackRes_unfold, index_set, canon_kVia]
 
+theorem removeHopByHop_nil : removeHopByHop [] = [] := by rw [removeHopByHop_eq_filter]; rfl
+
+/-- The header the client gets: the hop-by-hop-free part of the origin's header, or of the empty
+header of the synthesised response when the round trip was skipped. -/
+theorem exchange_resHdr (env : Env) (h : Header) (st : Nat) (oh : Header) :
+    (exchange env h st oh).resHdr = removeHopByHop (if (stackReq env h).1.skip then [] else oh) := by
+  unfold exchange sentUpstream
+  simp only [stackRes_unfold]
+  cases (stackReq env h).1.skip <;> cases (stackReq env h).1.loopKey <;> rfl
+
+/-- Whatever happens to the request, the client never gets a hop-by-hop header of the origin's
+response (fixed or named in the response's own Connection header), and on a forwarded exchange every
+other header of the response reaches it untouched. -/
+theorem exchange_response_no_hop_by_hop (env : Env) (h : Header) (st : Nat) (oh : Header) :
+    (∀ k ∈ removedKeys oh, k ∉ keys (exchange env h st oh).resHdr) ∧
+    ((exchange env h st oh).calls = 1 → ∀ k, k ∉ removedKeys oh → index (exchange env h st oh).resHdr k = index oh k) := by
+  have hc := (exchange_calls env h st oh).1
+  rw [exchange_resHdr]
+  cases hs : (stackReq env h).1.skip with
+  | true =>
+    rw [hs] at hc
+    refine ⟨fun k _ => ?_, fun h1 => ?_⟩
+    · simp [removeHopByHop_nil, keys]
+    · rw [hc] at h1; cases h1
+  | false =>
+    refine ⟨fun k hk => ?_, fun _ k hk => ?_⟩
+    · exact removed_not_in_keys hk
+    · exact kept_index hk
+
 def exEnv : Env :=
   { major := 1, minor := 1, name := strBytes "martian", boundary := strBytes "00", scheme := strBytes "http",
     host := strBytes "example.com", url := strBytes "http://example.com/", remote := strBytes "192.0.2.1:4711" }
